@@ -61,8 +61,12 @@ def main():
         res["existing_tests_tail"] = out[-600:]
         shutil.copy(demo, os.path.join(repo, demo_dir, "zz_seeded_demo_test.go"))
         race = "-race" if meta.get("race") is True else ""
-        rc, out = sh("go test -mod=mod -count=1 %s -run %s . 2>&1 | tail -25" % (race, runpat), cwd=os.path.join(repo, demo_dir), timeout=1800)
-        res["patched_demo_fails"] = "FAIL" in out or "panic" in out
+        for attempt in range(5):       # a demonstration that depends on a coin toss of `select` may pass now and then
+            rc, out = sh("go test -mod=mod -count=1 %s -run %s . 2>&1 | tail -25" % (race, runpat), cwd=os.path.join(repo, demo_dir), timeout=1800)
+            res["patched_demo_fails"] = "FAIL" in out or "panic" in out
+            res["patched_demo_runs"] = attempt + 1
+            if res["patched_demo_fails"]:
+                break
         res["patched_demo_tail"] = out[-800:]
         os.remove(os.path.join(repo, demo_dir, "zz_seeded_demo_test.go"))
         res["confirmed"] = bool(res["clean_demo_pass"] and res["applies"] and res["builds"] and res["existing_tests_pass"] and res["patched_demo_fails"])
